@@ -84,15 +84,19 @@ def one(ctx, rng, k):
             ctx.stats['exporter_preload'] += int(bool(ckw.get('preload')))
             with SgzConverter(sgz, **ckw) as c:
                 # the exporting object may have been used for header look-ups before (either padding mode)
-                pre = (k // 4) % 5
+                pre = (k // 4) % 6
                 desc['reads_before_export'] = ['none', 'gen_trace_header', 'read_variant_headers(include_padding=True)',
                                                'read_variant_headers(include_padding=True) + gen_trace_header',
-                                               'get_tracefield_values of every stored field'][pre]
+                                               'get_tracefield_values of every stored field',
+                                               'read_variant_headers(include_padding=True), then clear_variant_headers()'][pre]
                 ctx.stats['pre_export_reads_%d' % pre] += 1
                 if pre in (2, 3):
                     c.read_variant_headers(include_padding=True)
                 if pre in (1, 3):
                     c.gen_trace_header(0)
+                if pre == 5:
+                    c.read_variant_headers(include_padding=True)
+                    c.clear_variant_headers()
                 if pre == 4:
                     # (whole-grid arrays, zero at the holes of an irregular survey, asked for before the export)
                     for key in list(c.stored_header_keys):
